@@ -1,6 +1,7 @@
 import AtreeProofs.Batch.MapContent
 import AtreeProofs.Map.HkeySpec
 import AtreeProofs.Map.HkeySeg
+import AtreeProofs.Map.TreeInv2
 /-
   C17, bulk build of maps — the element loop under the map invariant: the digest table being
   filled stays valid (`HInv` = `ElemsInv` at level 0), a key that already occurred is rejected as
@@ -96,6 +97,41 @@ structure MFillOk (T r : Nat) (D : DigestFn (r + 1)) (cfg : MCfg) (st : FillStat
   distinct : KeysDistinct proc
   init_lt : mapDataSlabPrefixSize + hkeyElementsPrefixSize +
     HkeyElems.elemSizes (MElems.ops r) st.elements.elems.dropLast < T
+  /-- every closed data slab satisfies the data-slab invariant of a non-root slab -/
+  closed_data : ∀ s ∈ st.slabs, MDataInv T D false s
+  /-- first-level digests increase strictly across the closed slabs and the open table -/
+  all_sorted : (st.slabs.flatMap (fun s => s.elems.hkeys) ++ st.elements.hkeys).Pairwise (· < ·)
+  /-- closed slabs are linked left to right; the last one links to the slab being filled -/
+  chain : ChainTo st.slabs st.id
+  addr_ok : st.id.addr = cfg.addr ∧ ∀ s ∈ st.slabs, s.hdr.id.addr = cfg.addr
+
+/-- size of the slab being filled: everything but the last element stays below `T`, and the last
+    element respects the inline limit -/
+theorem fill_size_le (hT : legalThreshold T = true) {he : HkeyElems (MElems r)} (H : HI T r D he)
+    (hinit : mapDataSlabPrefixSize + hkeyElementsPrefixSize +
+      HkeyElems.elemSizes (MElems.ops r) he.elems.dropLast < T) :
+    mapDataSlabPrefixSize + he.size ≤ maxThr T ∧
+      ∀ el ∈ he.elems, MElemF.size (MElems.ops r) el ≤ maxInlineMapElem T := by
+  have hB := map_legal_bounds hT
+  have hle : ∀ el ∈ he.elems, MElemF.size (MElems.ops r) el ≤ maxInlineMapElem T := by
+    intro el hel
+    obtain ⟨i, hi⟩ := List.mem_iff_getElem?.mp hel
+    obtain ⟨hk, hhk⟩ := H.hkey_at hi
+    exact (H.elemOk hhk hi).size_le hT rfl
+  refine ⟨?_, hle⟩
+  have hsz := H.size_eq
+  have hsplit : HkeyElems.elemSizes (MElems.ops r) he.elems ≤
+      HkeyElems.elemSizes (MElems.ops r) he.elems.dropLast + (maxInlineMapElem T + digestSize) := by
+    rcases List.eq_nil_or_concat he.elems with hnil | ⟨L, x, hL⟩
+    · rw [hnil]; simp [HkeyElems.elemSizes]
+    · rw [List.concat_eq_append] at hL
+      have hx := hle x (by rw [hL]; simp)
+      rw [hL, List.dropLast_concat, HkeyElems.elemSizes_append]
+      simp only [HkeyElems.elemSizes, List.map_cons, List.map_nil, List.sum_cons, List.sum_nil]
+      omega
+  rw [maxInlineMapElem_eq] at hsplit
+  simp only [mapDataSlabPrefixSize, hkeyElementsPrefixSize, digestSize, maxThr] at *
+  omega
 
 theorem pairwise_le_getLast {l : List Nat} (h : l.Pairwise (· < ·)) {x : Nat} (hl : l.getLast? = some x) :
     ∀ a ∈ l, a ≤ x := by
@@ -232,23 +268,38 @@ theorem appendNew_ok (hT : legalThreshold T = true) {cfg : MCfg} (hc : CfgFor cf
         subst this; simp at ha
   obtain ⟨c1, c2, c3, c4, c5, c6⟩ := hcommon
   -- the parts that depend on the branch
+  have hsizeok := fill_size_le hT h.hinv h.init_lt
+  have hnewsize : (newSingleElement cfg.T cfg.addr k v c).1.size ≤ maxInlineMapElem T := hel.size_le hT rfl
   have hbranch : HI T r D (appendNew cfg st (k.dig 0) k v c).1.elements ∧
       (∀ s ∈ (appendNew cfg st (k.dig 0) k v c).1.slabs, HI T r D s.elems) ∧
       (∀ s ∈ (appendNew cfg st (k.dig 0) k v c).1.slabs, ∀ hk ∈ s.elems.hkeys, hk < k.dig 0) ∧
       (appendNew cfg st (k.dig 0) k v c).1.elements.hkeys.getLast? = some (k.dig 0) ∧
       mapDataSlabPrefixSize + hkeyElementsPrefixSize +
-        HkeyElems.elemSizes (MElems.ops r) (appendNew cfg st (k.dig 0) k v c).1.elements.elems.dropLast < T := by
+        HkeyElems.elemSizes (MElems.ops r) (appendNew cfg st (k.dig 0) k v c).1.elements.elems.dropLast < T ∧
+      (∀ s ∈ (appendNew cfg st (k.dig 0) k v c).1.slabs, MDataInv T D false s) ∧
+      ((appendNew cfg st (k.dig 0) k v c).1.slabs.flatMap (fun s => s.elems.hkeys) ++
+        (appendNew cfg st (k.dig 0) k v c).1.elements.hkeys).Pairwise (· < ·) ∧
+      ChainTo (appendNew cfg st (k.dig 0) k v c).1.slabs (appendNew cfg st (k.dig 0) k v c).1.id ∧
+      ((appendNew cfg st (k.dig 0) k v c).1.id.addr = cfg.addr ∧
+        ∀ s ∈ (appendNew cfg st (k.dig 0) k v c).1.slabs, s.hdr.id.addr = cfg.addr) := by
     have hclosed_lt : ∀ s ∈ st.slabs, ∀ hk ∈ s.elems.hkeys, hk < k.dig 0 := by
       intro s hs hk hhk
       have h1 := h.closed_lt s hs hk hhk
       rcases hnew with h0 | hgt
       · rw [(h.zero h0).2] at hs; simp at hs
       · omega
+    have hall_lt : ∀ a ∈ st.slabs.flatMap (fun s => s.elems.hkeys) ++ st.elements.hkeys, a < k.dig 0 := by
+      intro a ha
+      rcases List.mem_append.mp ha with ha | ha
+      · obtain ⟨s, hs, has⟩ := List.mem_flatMap.mp ha
+        exact hclosed_lt s hs a has
+      · exact hlt_all a ha
     unfold appendNew
     simp only
     split
     · -- a data slab is closed, the new pair starts the next one
-      refine ⟨?_, ?_, ?_, by simp [emptyElems], ?_⟩
+      rename_i hclose
+      refine ⟨?_, ?_, ?_, by simp [emptyElems], ?_, ?_, ?_, ?_, ?_⟩
       · exact hi_push hi_empty (k.dig 0) _ (by simp [emptyElems]) hel
       · intro s hs
         simp only [List.mem_append, List.mem_singleton] at hs
@@ -263,14 +314,44 @@ theorem appendNew_ok (hT : legalThreshold T = true) {cfg : MCfg} (hc : CfgFor cf
       · simp only [emptyElems, List.nil_append, List.dropLast_singleton, HkeyElems.elemSizes, List.map_nil,
           List.sum_nil, mapDataSlabPrefixSize, hkeyElementsPrefixSize]
         omega
+      · intro s hs
+        simp only [List.mem_append, List.mem_singleton] at hs
+        rcases hs with hs | rfl
+        · exact h.closed_data s hs
+        · rw [mdataInv_iff hT]
+          refine ⟨⟨(elemsInv_succ_iff T (r + 1) D r 0 [] st.elements).2 h.hinv, rfl, rfl, rfl, by simp [mkData]⟩,
+            hsizeok.1, ?_⟩
+          intro _
+          simp only [Bool.or_eq_true, decide_eq_true_eq, hc.hT] at hclose hnewsize
+          show minThr T ≤ mapDataSlabPrefixSize + st.elements.size
+          rw [maxInlineMapElem_eq] at hnewsize
+          simp only [minThr, maxThr, mapDataSlabPrefixSize, digestSize] at *
+          omega
+      · simp only [List.flatMap_append, List.flatMap_cons, List.flatMap_nil, List.append_nil, emptyElems,
+          List.nil_append, mkData]
+        rw [List.pairwise_append]
+        exact ⟨h.all_sorted, by simp, fun a ha b hb => by
+          simp only [List.mem_singleton] at hb; subst hb; exact hall_lt a ha⟩
+      · rw [chainTo_append]
+        exact ⟨by simpa [firstId, mkData] using h.chain, by simp [ChainTo, mkData]⟩
+      · refine ⟨rfl, ?_⟩
+        intro s hs
+        simp only [List.mem_append, List.mem_singleton] at hs
+        rcases hs with hs | rfl
+        · exact h.addr_ok.2 s hs
+        · exact h.addr_ok.1
     · rename_i hno
-      refine ⟨hi_push h.hinv (k.dig 0) _ hlt_all hel, h.closed_inv, hclosed_lt, by simp, ?_⟩
-      simp only [List.dropLast_concat]
-      simp only [Bool.or_eq_true, decide_eq_true_eq, not_or, Nat.not_le, hc.hT] at hno
-      have := h.hinv.size_eq
-      omega
-  obtain ⟨b1, b2, b3, b4, b5⟩ := hbranch
-  refine ⟨b1, b2, by rw [fp]; exact b3, fun _ => by rw [fp]; exact b4, ?_, c1, c2, c3, c4, c5, c6, b5⟩
+      refine ⟨hi_push h.hinv (k.dig 0) _ hlt_all hel, h.closed_inv, hclosed_lt, by simp, ?_, h.closed_data, ?_,
+        h.chain, h.addr_ok⟩
+      · simp only [List.dropLast_concat]
+        simp only [Bool.or_eq_true, decide_eq_true_eq, not_or, Nat.not_le, hc.hT] at hno
+        have := h.hinv.size_eq
+        omega
+      · rw [← List.append_assoc, List.pairwise_append]
+        exact ⟨h.all_sorted, by simp, fun a ha b hb => by
+          simp only [List.mem_singleton] at hb; subst hb; exact hall_lt a ha⟩
+  obtain ⟨b1, b2, b3, b4, b5, b6, b7, b8, b9⟩ := hbranch
+  refine ⟨b1, b2, by rw [fp]; exact b3, fun _ => by rw [fp]; exact b4, ?_, c1, c2, c3, c4, c5, c6, b5, b6, b7, b8, b9⟩
   intro h0; rw [fc] at h0; omega
 
 theorem dropLast_set_last {α : Type} (l : List α) (x : α) :
@@ -399,7 +480,8 @@ theorem collide_ok (hT : legalThreshold T = true) {cfg : MCfg} (hc : CfgFor cfg 
       have h2 := List.Perm.append_left P h1
       simpa [List.append_assoc] using h2
     refine ⟨hi_setLast h.hinv st.prevHkey prevElem e' hlastE hl hEl', h.closed_inv, h.closed_lt,
-      fun _ => hl, fun h0 => by simp [collideState] at h0, by simp [collideState, h.count_eq], ?_, ?_, ?_, ?_, ?_, ?_⟩
+      fun _ => hl, fun h0 => by simp [collideState] at h0, by simp [collideState, h.count_eq], ?_, ?_, ?_, ?_, ?_, ?_,
+      h.closed_data, h.all_sorted, h.chain, h.addr_ok⟩
     · intro p hp
       rcases List.mem_append.mp hp with hp | hp
       · exact h.proc_ok p hp
@@ -510,11 +592,11 @@ theorem mfill_ok (hT : legalThreshold T = true) {cfg : MCfg} (hc : CfgFor cfg T 
         exact hs.1 _ q hq rfl
 
 /-- the initial state of the element loop -/
-theorem mfill_init (hT : legalThreshold T = true) (cfg : MCfg) (id : SlabID) :
+theorem mfill_init (hT : legalThreshold T = true) (cfg : MCfg) (id : SlabID) (hid : id.addr = cfg.addr) :
     MFillOk T r D cfg { id := id, elements := emptyElems r, slabs := [], count := 0, prevHkey := 0 } [] := by
   have hB := map_legal_bounds hT
   refine ⟨hi_empty, by simp, by simp, by simp, fun _ => ⟨rfl, rfl⟩, rfl, by simp, by simp, ⟨[], rfl, ?_⟩,
-    by simp, by simp [KeysDistinct], ?_⟩
+    by simp, by simp [KeysDistinct], ?_, by simp, by simp [emptyElems], by simp [ChainTo], ⟨hid, by simp⟩⟩
   · simp [fillPairs, emptyElems, HkeyElems.toList]
   · simp only [emptyElems, List.dropLast_nil, HkeyElems.elemSizes, List.map_nil, List.sum_nil,
       mapDataSlabPrefixSize, hkeyElementsPrefixSize]
